@@ -7,6 +7,7 @@ package saml2
 
 import (
 	"bytes"
+	"regexp"
 	"crypto/aes"
 	"crypto/cipher"
 	"crypto/rsa"
@@ -542,3 +543,23 @@ func vB64Str(name string) string {
 	}
 	return base64.StdEncoding.EncodeToString(b)
 }
+
+var vxUUIDRe = regexp.MustCompile(`^_[0-9a-f]{8}-[0-9a-f]{4}-4[0-9a-f]{3}-[89ab][0-9a-f]{3}-[0-9a-f]{12}$`)
+
+// vIsUnderscoreUUID (native): "_" + canonical v4 UUID whose free bits are the last 16 scripted random bytes.
+func vIsUnderscoreUUID(id string) bool {
+	if !vxUUIDRe.MatchString(id) {
+		return false
+	}
+	if vxRand == nil || vxRand.pos < 16 {
+		return true
+	}
+	var u [16]byte
+	for i := 0; i < 16; i++ {
+		u[i] = vxRand.byteAt(vxRand.pos - 16 + i)
+	}
+	u[6] = (u[6] & 0x0f) | 0x40
+	u[8] = (u[8] & 0x3f) | 0x80
+	return id == fmt.Sprintf("_%x-%x-%x-%x-%x", u[0:4], u[4:6], u[6:8], u[8:10], u[10:16])
+}
+func vFormatUTC(layout string, ns int64) string { return time.Unix(0, ns).UTC().Format(layout) }
